@@ -31,7 +31,8 @@ func c05build(ops []*Sx) (*flamego.Flame, bool) {
 	f.Use(flamego.Renderer()) // every other route answers through the request's Render
 	c16setup()                // files served with ETags next to the routes: first requests arrive concurrently
 	f.Use(flamego.Static(flamego.StaticOptions{Directory: filepath.Join(c16root, "pub"), Prefix: "c05static", SetETag: true}))
-	f.Use(func(c flamego.Context) {}) // five Use calls: length 5, capacity 8 - spare capacity again
+	f.Use(func(c flamego.Context) {}) // eight Use calls so far: length 8 = capacity 8
+	f.Use(func(c flamego.Context) {}) // the ninth leaves spare capacity in the middleware slice (length 9, capacity 16)
 	f.Map(&svcA{id: 77})              // resolved by handlers through the interface i1
 	for k := 0; k < 4; k++ {          // handlers of the built-in fast shape func() (int, string), each with its own answer
 		k := k
